@@ -33,7 +33,7 @@ def impl_project_url(outdir, page):
         pg = P({"output_dir": pathlib.Path(outdir), "relative": True}, proj, None)
         return str(pg.project_url)
     except Exception as e:  # noqa
-        return "EXC:" + type(e).__name__
+        return _exc(e) if isinstance(e, (AttributeError, TypeError, KeyError)) else "EXC:" + type(e).__name__
 
 
 def impl_relurl(text, page):
@@ -44,15 +44,34 @@ def impl_relurl(text, page):
         return "EXC:" + type(e).__name__
 
 
-class _Item:
-    def __init__(self, url, name="thing"):
-        self._url, self.name, self.parent, self.filename = url, name, None, "f.f90"
+def _exc(e):
+    """implementation exceptions are outputs (EXC:<Type>); exceptions caused by the harness' own stub
+    objects or raised inside harness code are adapter errors (HARNESS:...), never judged as outputs"""
+    import traceback
+    tb = traceback.extract_tb(e.__traceback__)
+    last = tb[-1].filename if tb else ""
+    if "VerifStub" in str(e) or last.startswith(str(pathlib.Path(__file__).resolve().parent.parent)):
+        return f"HARNESS:{type(e).__name__}: {e} (at {last}:{tb[-1].lineno if tb else 0})"
+    return "EXC:" + type(e).__name__
 
-    def get_url(self):
-        return self._url
 
-    def find_child(self, name, entity=None):
-        return None
+def _Item(url, name="thing"):
+    """a real FortranBase object (no source behind it) whose get_url() is `url`"""
+    import ford.sourceform as sf
+
+    class VerifStubEntity(sf.FortranBase):
+        def __init__(self):     # noqa  (FortranBase.__init__ needs a reader)
+            pass
+
+        def get_url(self):
+            return self._verif_url
+
+        @property
+        def filename(self):
+            return "f.f90"
+    it = VerifStubEntity()
+    it._verif_url, it.name, it.parent, it.obj, it.visible = url, name, None, "proc", True
+    return it
 
 
 class _Proj:
@@ -86,7 +105,7 @@ def impl_doc_link(base, ctx_url, target_url, current=None, markdown_link=None, v
         m = _HREF.search(html)
         return m.group(1) if m else "NOHREF"
     except Exception as e:  # noqa
-        return "EXC:" + type(e).__name__
+        return _exc(e)
 
 
 KIND_OF_CLASS = {
